@@ -51,3 +51,23 @@ M("path-index-hex", ["C19"], PATH, '"%c%zd%c",\n\t\t\t\tATTR_PATH_INDEX_START', 
 M("path-no-name-max", ["C19"], PATH, "    if (strlen(path_str) > ATTR_PATH_NAME_MAX)\n\treturn NULL;\n", "")
 M("path-no-comp-max", ["C19"], PATH, "\tif (path->num_comps == ATTR_PATH_COMP_MAX) {\n\t    attr_path_destroy(path);\n\t    return NULL;\n\t}\n", "")
 M("map-clone-shallow-size", ["C19"], MAP, "    if (dst_map != src_map)\n", "    if (1)\n")
+
+# ---- C10 (reverts of repaired defects + others)
+TREE = "libxcm/core/attr_tree.c"
+TCPATTR = "libxcm/tp/tcp/tcp_attr.c"
+XTP = "libxcm/tp/common/xcm_tp.c"
+M("attr-no-fixed-capacity-check", ["C10"], TREE,
+  "    if (capacity < fixed_value_len(value_type)) {\n\terrno = EOVERFLOW;\n\treturn -1;\n    }\n", "")
+M("attr-getf-str-enoent", ["C10"], XCM, "if (errno == EOVERFLOW && actual_type != required_type)", "if (errno == EOVERFLOW)")
+M("attr-log-unbounded-str", ["C10"], "libxcm/core/log_attr_tree.c",
+  'snprintf(buf, capacity, "\\"%.*s\\"", (int)len, (const char *)value);', 'snprintf(buf, capacity, "\\"%s\\"", (const char *)value);')
+M("tcp-set-no-restore", ["C10"], TCPATTR, "\t    opts->optname = old_value;\t\t\t\t\t\\\n", "")
+M("tcp-user-timeout-overflow", ["C10"], TCPATTR,
+  "\tif (value <= 0 || value > INT_MAX / (k)) {\t\t\t\\",
+  "\tint64_t scaled_value = value * (k);\t\t\t\t\\\n\tif (scaled_value <= 0 || scaled_value > INT_MAX) {\t\t\\")
+M("attr-str-getter-off-by-one", ["C10"], XTP, "    if (len >= capacity) {\n\terrno = EOVERFLOW;", "    if (len > capacity) {\n\terrno = EOVERFLOW;")
+M("attr-max-msg-no-capacity", ["C10"], TREE, "fixed_value_len(value_type)) {", "0) {")
+M("attr-set-no-type-check", ["C10"], TREE,
+  "    if (attr_node_value_get_value_type(value_node) != type) {", "    if (0) {")
+M("attr-set-int64-any-len", ["C10"], TREE, "\treturn len == sizeof(int64_t);", "\treturn true;")
+M("attr-set-ro-allowed", ["C10"], TREE, "    if (!attr_node_value_is_writable(value_node)) {", "    if (0 && !attr_node_value_is_writable(value_node)) {")
